@@ -8,11 +8,12 @@
 //	e2e replay <stream> <replay-json-file>
 //	    re-run one history (the JSON of a FAIL line, or just its "history" member).
 //
-// Streams: c03 | c05 | initrace. All randomness comes from wire.Rng seeded by <seed>.
+// Streams: c01 | c03 | c05 | initrace. All randomness comes from wire.Rng seeded by <seed>.
 package main
 
 import (
 	"bytes"
+	"embed"
 	"encoding/json"
 	"fmt"
 	"os"
@@ -25,9 +26,40 @@ import (
 	"verifharness/internal/wire"
 )
 
+//go:embed corpus/*.json
+var corpusFS embed.FS
+
+// corpus returns the hand-kept witnesses of a stream (harness/e2e/corpus/<stream>.<name>.json,
+// embedded at build time); `e2e run` plays them before the generated cases.
+func corpus(stream string) []*History {
+	ents, err := corpusFS.ReadDir("corpus")
+	if err != nil {
+		return nil
+	}
+	var out []*History
+	for _, e := range ents {
+		if !strings.HasPrefix(e.Name(), stream+".") {
+			continue
+		}
+		raw, err := corpusFS.ReadFile("corpus/" + e.Name())
+		if err != nil {
+			continue
+		}
+		h := &History{}
+		if err := json.Unmarshal(raw, h); err != nil {
+			fmt.Fprintln(os.Stderr, "corpus file", e.Name(), "does not parse:", err)
+			os.Exit(2)
+		}
+		h.Corpus = strings.TrimSuffix(e.Name(), ".json")
+		out = append(out, h)
+	}
+	return out
+}
+
 // History is one self-contained case.
 type History struct {
 	Stream   string `json:"stream"`
+	Corpus   string `json:"corpus,omitempty"` // name of the corpus file this case came from
 	Seed     uint64 `json:"seed,omitempty"`
 	Case     int    `json:"case,omitempty"`
 	Flavor   string `json:"flavor"` // envoy | zt
@@ -35,6 +67,9 @@ type History struct {
 	Explicit bool   `json:"explicit_wildcard,omitempty"` // delta client subscribes to "*" explicitly
 	Base     []Op   `json:"base"`
 	Steps    [][]Op `json:"steps"` // the ops of one step are applied back to back; quiescence + comparison after each step
+
+	// c03 (envoy flavour): hold back the events of one step while the next one is pushed
+	Lag *LagSpec `json:"lag,omitempty"`
 
 	// c05
 	Cut *CutSpec `json:"cut,omitempty"`
@@ -99,6 +134,8 @@ func usage() {
 
 func generate(stream string, r *wire.Rng) *History {
 	switch stream {
+	case "c01":
+		return genC01(r)
 	case "c03":
 		return genC03(r)
 	case "c05":
@@ -111,6 +148,23 @@ func generate(stream string, r *wire.Rng) *History {
 	return nil
 }
 
+// caseLimit: a case that does not come back at all (every wait inside a case is bounded, so this
+// means a deadlock in the harness or in the server) ends the run with a distinct line and exit code 3.
+const caseLimit = 4 * time.Minute
+
+func executeGuarded(h *History, st *stats, onHang func()) result {
+	done := make(chan result, 1)
+	go func() { done <- execute(h, st) }()
+	select {
+	case r := <-done:
+		return r
+	case <-time.After(caseLimit):
+		onHang()
+		os.Exit(3)
+		return result{}
+	}
+}
+
 func execute(h *History, st *stats) (res result) {
 	defer func() {
 		if r := recover(); r != nil {
@@ -118,6 +172,8 @@ func execute(h *History, st *stats) (res result) {
 		}
 	}()
 	switch h.Stream {
+	case "c01":
+		return runC01(h, st)
 	case "c03":
 		if h.Flavor == "zt" {
 			return runC03Zt(h, st)
@@ -182,10 +238,27 @@ func main() {
 			salt = salt*131 + uint64(c)
 		}
 		r := wire.NewRng(seed*1000003 + salt)
+		var cases []*History
+		for _, h := range corpus(stream) {
+			cases = append(cases, h)
+			st.Extra["corpus-cases"]++
+		}
 		for i := 0; i < n; i++ {
 			h := generate(stream, r.Fork())
 			h.Seed, h.Case = seed, i
-			res := execute(h, st)
+			cases = append(cases, h)
+		}
+		for _, h := range cases {
+			h := h
+			res := executeGuarded(h, st, func() {
+				out.Line(line(h, result{Clause: "harness-timeout", Detail: map[string]any{"where": "case did not return within " + caseLimit.String()}}))
+				b, _ := json.Marshal(st)
+				out.Line("STATS " + string(b))
+				out.Close()
+			})
+			if res.OK && h.Corpus != "" {
+				res.Summary = "corpus=" + h.Corpus + " " + res.Summary
+			}
 			st.Cases++
 			if res.OK {
 				st.OK++
